@@ -1,7 +1,7 @@
 /*@harness
 {"tier":"quick","mode":"bounded(one dispatch of F_ADD / F_ADD_EQ; operand types number, real, string; strings of at most 3 characters; every 64-bit integer and every double)","tus":["src/interpret.c"],"dfcc":false,
  "functions":["eval_instruction"],
- "flags":["--bounds-check","--pointer-check","--no-malloc-may-fail","--object-bits","10"],"reachability":true,"unwind":6,"timeout":900,
+ "flags":["--bounds-check","--pointer-check","--no-malloc-may-fail","--object-bits","10"],"reachability":true,"unwind":44,"timeout":900,
  "expect":["sprintf.assertion","eval_instruction.pointer_dereference","h_op_add.assertion"],
  "ignore":[{"class":"overflow","text_contains":"u.number","why":"LPC integer arithmetic on int64 wraps / double-to-int conversion out of range: undefined in ISO C but not one of the memory-safety clauses of C01 (two's complement on every supported compiler)"}],
  "native":{"inject":true},
